@@ -452,7 +452,8 @@ def _register_parse_etags(reg):
     reg.contract(
         "model:EtagPattern.match", prop="C11", trusted=True, param_names=["self", "value", "pos"], modifies=[],
         returns=("opt", ("obj", EM)),
-        ensures=["implies(result is not None, pos < result.e and result.e <= len(value))",
+        ensures=["implies(result is not None, pos <= result.e and result.e <= len(value))",
+                 "implies(result is not None and not ('\\n' in value), pos < result.e)",
                  "implies(result is not None, (result.quoted is None) != (result.raw is None))",
                  "implies(result is not None and result.weak is not None, result.weak == 'W/' or result.weak == 'w/')",
                  "implies(result is not None and result.quoted is not None, "
@@ -460,7 +461,8 @@ def _register_parse_etags(reg):
                  "implies(result is not None and result.raw is not None, "
                  "        value[pos:result.e].startswith((result.weak if result.weak is not None else '') + result.raw))"],
         note="re.Pattern.match of  ([Ww]/)?(?:\"(.*?)\"|(.*?))(?:\\s*,\\s*|$)  at pos < len(value): exactly one alternative "
-             "takes part; the match consumes at least one character (a separator, or the rest of the text)",
+             "takes part; on text without a line feed the match consumes at least one character (a separator, or the rest "
+             "of the text) -- with a trailing line feed `$` matches in front of it and the match can be empty",
     )
     reg.overrides["werkzeug/http.py:_etag_re"] = lambda interp: interp.fresh(("obj", EP), "_etag_re")
     ER = reg.model("ETagsRec", fields={"star_tag": "bool", "strong": "List[Optional[str]]", "weak": "List[Optional[str]]"})
@@ -475,6 +477,10 @@ def _register_parse_etags(reg):
     reg.constructors["werkzeug/datastructures/etag.py:ETags"] = _mk_etags
     reg.contract(
         "werkzeug/http.py:parse_etags#verify", prop="C11", params={"value": "Optional[str]"}, returns=ER, modifies=[],
+        # header text as a WSGI server delivers it (and as C07 quantifies): no line feed.  Not a formality: `$` also matches
+        # in front of a trailing "\n", so for 'a\n' the pattern matches the empty string at the last position and the real
+        # loop never advances (observed natively: parse_etags('a\n') does not return).  Outside the properties' domains.
+        assumes=["value is None or not ('\\n' in value)"],
         ghost_after={
             "is_weak, quoted, raw = match.groups()": ["ghost_q = quoted", "ghost_r = raw"],
             "weak.append(raw)": ["assert is_weak is not None and raw == (quoted if (quoted is not None and len(quoted) > 0) else ghost_r)"],
